@@ -27,7 +27,7 @@ from vf.checks import c09_more
 
 PROP = "C09"
 CASES = {"quick": 20000, "thorough": 1200000}
-RULE = ("family in 57 method families x parameters from a small grid inside the documented range (so that each bound is "
+RULE = ("family in 58 method families x parameters from a small grid inside the documented range (so that each bound is "
         "computed once per shard and reused) x real member (seeded) x dimension 1-4 x starting point.  Non-trivial = real "
         "performance >= 50% of the bound; distinct by case JSON.")
 TRUSTED = ["the numpy re-implementations of the methods in vf/checks/c09.py (from the docstrings)", "vf/members.py", "CLARABEL"]
@@ -194,6 +194,26 @@ def run_family(case, rng):
     fam, p, n, kind, slack = case["family"], case["params"], case["n_dim"], case["member"], case["slack"]
     if fam == "gd_nonconvex":
         L, g, N = p["L"], p["gamma"], p["n"]
+        if kind == "extremal" and n <= 2:
+            # the worst case of the method: a one-dimensional function whose derivative is the triangle wave
+            # G - L' dist(x0 - x, period Z) with period gamma G (curvature +-L', L' = L / slack): every iterate sees the same
+            # gradient G and the value drops by gamma G^2 (1 - L' gamma / 4) per step
+            Lp = L / slack
+            G = float(rng.choice([1.0, 0.5, 3.0]))
+            per = g * G
+
+            def drop(t):
+                k, r = divmod(t, per)
+                tri = r * r / 2 if r <= per / 2 else per * per / 4 - (per - r) ** 2 / 2
+                return k * (per * G - Lp * per * per / 4) + G * r - Lp * tri
+            t, best = 0.0, G * G
+            for _ in range(N):
+                u = t % per
+                gr = G - Lp * min(u, per - u)
+                t += g * gr
+                u = t % per
+                best = min(best, (G - Lp * min(u, per - u)) ** 2)
+            return best / drop(t), "PEPit.examples.nonconvex_optimization", "wc_gradient_descent", p
         m = members.CosSum(rng, n)
         # rescale so that the curvature bound is exactly L / slack
         m.a = m.a * (L / slack) / m.L
